@@ -322,6 +322,27 @@ def run(repo, chk):
     t = '\n'.join(src(m) for m in repo.methods(ERRORS, 'CompilerError').values())
     chk.expect('isinstance(context, Span) or isinstance(context, Cursor)' in t and 'self.context = tuple(context)' in t and
                'source.lines[line]' in t, 'C10.X5', 'CompilerError.get_info', 'context normalised to a tuple of spans; rendering indexes source lines', ERRORS)
+    # positions: the union of spans/cursors covers both and stays inside them (diagnostics point into the source)
+    Span, Cursor = _lex['Span'], _lex['Cursor']
+    pts = [Cursor(0, 0), Cursor(0, 5), Cursor(1, 2), Cursor(3, 0)]
+    bad = None
+    for a in pts:
+        for b in pts:
+            if b < a:
+                continue
+            s = Span(a, b)
+            for c in pts:
+                u = s | c
+                if u.start != min(a, c) or u.end != max(b, c):
+                    bad = f'Span({a},{b}) | {c} = {u}'
+                for d in pts:
+                    if d < c:
+                        continue
+                    u2 = s | Span(c, d)
+                    if u2.start != min(a, c) or u2.end != max(b, d):
+                        bad = f'Span({a},{b}) | Span({c},{d}) = {u2}'
+    chk.expect(bad is None and str(Cursor(2, 4)) == '3:5' and Cursor(1, 9) < Cursor(2, 0), 'C10.X5', 'Span / Cursor algebra',
+               bad or 'union = (min start, max end); cursors order by (line, column); printed 1-based', 'hidc/lexer/scanner.py')
     chk.not_decided = ['implicit exceptions outside the partial-builtin table', 'recursion depth (excluded by the property)',
                        'acceptance of the output by the real Sphinx assembler']
 
